@@ -16,8 +16,15 @@ RULE = ('real TransmissionModel/EmissionModel with 1-3 molecules (different nati
         '<= 3/2 W; bin within [min-W/2, max+W/2]; mid-point spacing condition for the native and the kept grid), both for the '
         'same native values re-binned on the clipped grid (tolerance: rounding) and for the restricted run (licensed band); the '
         'reproducer of the repaired clip-margin defect (bin_clip_condition_sharp, spacing 0.35 W) is a corpus regression. '
-        'distinct non-trivial = distinct '
+        'multi-contrib stream (15 models per quick run): thin atmospheres with one block of 1-3 saturated native points (a strong '
+        'line), absorption + 1-3 of Rayleigh/CIA/grey haze/Lee haze/cloud deck in random insertion order, and a history of 5-6 '
+        'calls of model / model_contrib / model_full_contrib on the native grid, on two windows away from the line and one across it '
+        '(fixed quota: the sequence of the taurex program, native run then every component on a window); every restricted result '
+        'is judged against the native reference at the same points - to rounding when no row of the request is saturated in the '
+        'full run, within the licensed band otherwise - and restricted transmission runs against the C01 Lean model on the '
+        're-indexed columns of the full run\'s cross-sections. distinct non-trivial = distinct '
         '(model kind, grid kind, request kind, regime, nlayers, n native) with a request strictly inside the native range')
+USES_MODELS = ['C01']
 ASSUMPTIONS = ['np.interp = NpInterp.npInterp (last j with xp[j] <= x, clamped ends)',
                'compute_bin_edges = Binning.computeBinEdges',
                'licensed deviation: tau>10 early exit (transmission) / exp(-10) clamp (emission) couple columns; '
@@ -50,8 +57,8 @@ SRC_SPECS = [
 ]
 
 
-def native_grid(rng, n, kind):
-    a = float(rng.uniform(300, 3000))
+def native_grid(rng, n, kind, amax=3000.0):
+    a = float(rng.uniform(300, amax))
     if kind == 'linear':
         return np.linspace(a, a + float(rng.uniform(200, 4000)), n)
     if kind == 'log':
@@ -457,6 +464,265 @@ def run_models(ctx):
                 ctx.malformed_outcome('width-condition-violated:' + type(e).__name__)
 
 
+# ---------------------------------------------------------------------------------------------------------------------
+# models with SEVERAL contributions and operation histories over the three entry points that restrict the grid
+# (model / model_contrib / model_full_contrib).  Whatever couples wavenumbers does so through state shared by the
+# columns of one run: the per-layer early exit of the contribution loop (a saturated line elsewhere on the grid must not
+# switch the later contributions off at the wavenumbers of the request) and whatever a contribution keeps between runs
+# (the per-component path integrates with what prepare_each leaves in the contribution object; the run before it may
+# have been on another grid).
+E10 = math.exp(-10.0)
+KINDS01 = {'CIAContribution': 1, 'SimpleCloudsContribution': 2}
+LATER = ['rayleigh', 'cia', 'flatmie', 'leemie', 'clouds']
+
+
+def make_line_spec(rng, gk, kind):
+    """an atmosphere that is thin everywhere except for a block of 1-3 saturated native points (a strong line) in the first
+    or last quarter of the native grid, with absorption and 1-3 further contributions in random insertion order"""
+    spec, native = make_spec(rng, gk, 'thin')
+    n = len(native)
+    if rng.random() < 0.6:
+        # further into the visible, where Rayleigh scattering is no longer negligible
+        old = np.asarray(native, float)
+        native = native_grid(rng, n, gk, amax=12000.0)
+        for k, (g, o) in enumerate(zip(spec['gases'], spec['opacities'])):
+            sel = np.searchsorted(old, np.asarray(g['_wn'], float))
+            g['_wn'] = native[sel]
+            o['wn'] = native[sel]
+    spec['pmax'] = float(10 ** rng.uniform(4.5, 7))
+    spec['pmin'] = float(spec['pmax'] * 10 ** rng.uniform(-7, -4))
+    # re-derive a bound atmosphere for the new pressure range (same rule as fm.gen_spec)
+    t = spec['temperature']
+    tmax = max([t.get('T', 0.0), t.get('T_surface', 0.0), t.get('T_top', 0.0)] + list(np.ravel(t.get('tp', [0.0]))) +
+               list(t.get('temperature_points', [])))
+    rp_m = spec['planet_radius'] * 69911000.0
+    glim = np.log(spec['pmax'] / spec['pmin']) * 1.380649e-23 * tmax / (2.0 * 1.66054e-27 * rp_m)
+    spec['planet_mass'] = float(3.0 * glim * 10 ** rng.uniform(0.0, 1.0) * rp_m ** 2 / 6.67384e-11 / 1.898e27)
+    if t['type'] == 'npoint':
+        t['pressure_points'] = [float(np.sqrt(spec['pmin'] * spec['pmax']))]
+    w = int(rng.integers(1, 4))
+    low = bool(rng.random() < 0.5)
+    s0 = int(rng.integers(2, max(3, n // 4 - w))) if low else int(rng.integers(3 * n // 4, n - 2 - w))
+    tab = np.asarray(spec['opacities'][0]['xsec'], float)
+    tab[:, :, s0:s0 + w] = 10 ** rng.uniform(-16, -12, size=tab[:, :, s0:s0 + w].shape)
+    spec['opacities'][0]['xsec'] = tab
+    # the request windows: two of different lengths in the half of the grid away from the line, one across the line
+    half = (n // 2 + 3, n - 2) if low else (2, n // 2 - 3)
+
+    def window(lo, hi, m):
+        m = max(3, min(m, hi - lo))
+        a = int(rng.integers(lo, hi - m + 1))
+        return [a, a + m]
+    span = half[1] - half[0]
+    wins = dict(off=window(half[0], half[1], int(rng.integers(4, max(5, span // 2)))),
+                off2=window(half[0], half[1], int(rng.integers(3, max(4, span // 3)))),
+                on=[max(0, s0 - int(rng.integers(2, 7))), min(n, s0 + w + int(rng.integers(2, 7)))])
+    nbot = spec['pmax'] / (1.380649e-23 * 1000.0)
+    later = [c for c in LATER if rng.random() < (0.65 if c == 'rayleigh' else 0.4) and not (c == 'clouds' and kind != 'transmission')]
+    if not any(c in later for c in ('rayleigh', 'cia', 'flatmie')):
+        later.append(str(rng.choice(['rayleigh', 'flatmie'])))
+    if 'leemie' in later and 'flatmie' in later:
+        later.remove('leemie')
+    cs = [dict(type='absorption')]
+    for c in later:
+        if c == 'cia':
+            if not spec['cia']:
+                spec['cia'] = [fm.gen_cia(rng, 'H2-H2', fm.gen_wngrid(rng, int(rng.integers(2, 6))), -50.0, -40.0,
+                                          nT=int(rng.integers(1, 4)))]
+            cs.append(dict(type='cia', pairs=[x['pair'] for x in spec['cia']]))
+        elif c == 'rayleigh':
+            cs.append(dict(type='rayleigh'))
+        elif c == 'clouds':
+            cs.append(dict(type='clouds', clouds_pressure=float(spec['pmax'] * 10 ** rng.uniform(-2.5, -0.2))))
+        elif c == 'flatmie':
+            # a grey haze of slant optical depth ~ 0.01 .. 3 at the bottom of the atmosphere
+            cs.append(dict(type='flatmie', flat_mix_ratio=float(10 ** rng.uniform(-2, 0.5) / (nbot * 1e6)),
+                           flat_bottomP=-1, flat_topP=-1))
+        else:
+            cs.append(dict(type='leemie', lee_mie_radius=float(10 ** rng.uniform(-2, 0)), lee_mie_q=float(rng.uniform(1, 60)),
+                           lee_mie_mix_ratio=float(10 ** rng.uniform(-16, -10)), lee_mie_bottomP=-1, lee_mie_topP=-1))
+    if rng.random() < 0.35:
+        cs = [cs[i] for i in rng.permutation(len(cs))]          # two cases in three: absorption is added first
+    spec['contributions'] = cs
+    return spec, native, dict(line=[s0, s0 + w], windows=wins)
+
+
+def _components(res):
+    return {'%s/%s' % (cn, c[0]): (np.asarray(c[1], float), np.asarray(c[2], float)) for cn, lst in res.items() for c in lst}
+
+
+def _band_eff(kind, band, trans_full, idx):
+    """the licensed band of a restricted run against the full run.  Transmission: the only coupling between columns is the
+    break `tau[layer].min() > 10` over the columns of the run; partial sums never exceed the final optical depth, so a row
+    in which one of the REQUESTED columns ends at tau <= 10 in the full run is cut in neither run: if that holds for every
+    row the two runs execute the same additions and must agree to rounding (Props/C13.lean:column_within_cutoff, case
+    tR = full = tF)."""
+    if kind != 'transmission':
+        return band
+    t = np.asarray(trans_full, float)[:, idx]
+    return 0.0 if bool(np.all(t.max(axis=1) >= E10 * (1 + 1e-9))) else band
+
+
+def run_contrib_models(ctx):
+    for k in range(ctx.n(15, 240)):
+        # one sub-stream per case, seeded from the run's generator: the case is replayable from (k, sub)
+        eval_contrib_case(ctx, k, int(ctx.rng.integers(0, 2 ** 62)))
+
+
+def eval_contrib_case(ctx, k, sub):
+    rng = np.random.Generator(np.random.PCG64(sub))
+    kinds = ['transmission', 'transmission', 'emission']
+    gridkinds = ['linear', 'log', 'constR']
+    if True:
+        kind = kinds[k % 3]
+        gk = gridkinds[(k // 3) % 3]
+        spec, native, geo = make_line_spec(rng, gk, kind)
+        names = [c['type'] for c in spec['contributions']]
+        base = dict(kind=kind, grid=gk, nlayers=spec['nlayers'], nnative=len(native), contributions=names,
+                    gases=[g['mol'] for g in spec['gases']], seed=ctx.seed, k=k, sub=sub, stream='multi-contrib',
+                    line=geo['line'], windows=geo['windows'])
+        has_cloud = 'clouds' in names
+        wins = {None: None}
+        wins.update({kk: native[a:b].copy() for kk, (a, b) in geo['windows'].items()})
+        if k % 3 == 0:        # the sequence of the `taurex` program: native run, then every component on the observed range
+            hist = [('model', None), ('full', 'off'), ('contrib', 'off2'), ('full', 'on'), ('model', 'off')]
+        elif k % 3 == 1:
+            hist = [('model', 'on'), ('full', 'off'), ('model', 'off'), ('contrib', 'on'), ('full', 'off2')]
+        else:
+            hist = [(str(rng.choice(['model', 'contrib', 'full'])), [None, 'off', 'off2', 'on'][int(rng.integers(0, 4))])
+                    for _ in range(5)]
+            hist.append(('model', 'off'))
+        base['history'] = [[o, w] for o, w in hist]
+        try:
+            model = fm.build_model(spec, kind=kind)
+            nat, full, trans_full, _ = model.model()
+            nat = np.asarray(nat, float)
+            full = np.asarray(full, float)
+            trans_full = np.asarray(trans_full, float)
+            prof = fm.profiles(model)
+            sig_full = [(KINDS01.get(type(c).__name__, 0), np.array(c.sigma_xsec, float)) for c in model.contribution_list]
+            ref_contrib = {n_: (np.asarray(v_[0], float), np.asarray(v_[1], float)) for n_, v_ in model.model_contrib()[1].items()}
+            ref_full = None
+            if not has_cloud:
+                ref_full = _components(model.model_full_contrib()[1])
+        except Exception as e:
+            ctx.malformed_outcome('multi-contrib:build:' + type(e).__name__)
+            return
+        if not np.array_equal(nat, native):
+            ctx.mismatch('nativeWavenumberGrid is the longest molecule grid', base, dict(n=len(nat), expected=len(native)))
+            return
+        if kind == 'transmission':
+            band = band_transmission(model) + 1e-12 * float(np.max(np.abs(full)))
+        else:
+            band = 2 * spec['nlayers'] * math.exp(-10) * float(np.max(np.abs(full))) + 1e-300
+        tiny = 1e-9 * float(np.max(np.abs(full))) + 1e-300
+        # ---- what this case can show (input distribution): a row with saturated AND clear columns in the full run ...
+        if kind == 'transmission':
+            part = (trans_full.min(axis=1) <= E10) & (trans_full.max(axis=1) >= 0.5)
+            ctx.bucket('multi-contrib:rows-partially-saturated:' + ('some' if part.any() else 'none'))
+            # ... and a contribution listed after the absorber that matters on the window away from the line
+            order = [type(c).__name__ for c in model.contribution_list]
+            a, b = geo['windows']['off']
+            bare = prof['rp'] ** 2 / prof['rs'] ** 2
+            after = [c.name for c in model.contribution_list[order.index('AbsorptionContribution') + 1:]] \
+                if 'AbsorptionContribution' in order else []
+            sens = part.any() and any(float(np.max(ref_contrib[nm][0][a:b] - bare)) > 10 * band for nm in after if nm in ref_contrib)
+            ctx.bucket('multi-contrib:later-contribution-matters-off-line:' + ('yes' if sens else 'no'))
+        ctx.case(key=('multi-contrib', kind, gk, tuple(sorted(names)), spec['nlayers']),
+                 sample=dict(base, windows=geo['windows']), bucket='multi-contrib:%s' % kind)
+        for c in names:
+            ctx.bucket('multi-contrib:contrib:' + c)
+        prev = 'native'
+        stop = False
+        for step, (op, wkey) in enumerate(hist):
+            req = wins[wkey]
+            case = dict(base, request='history:%s(%s)' % (op, wkey), step=step, req=req)
+            if op == 'full' and has_cloud:
+                # TODO (genuine defect of the unchanged tree, reported): SimpleCloudsContribution.prepare_each never sets
+                # self.sigma_xsec, so model_full_contrib with a cloud deck raises (fresh model: TypeError, after a run on a grid
+                # of another length: ValueError) - not judged until /repo is repaired
+                ctx.bucket('TODO:model_full_contrib-with-cloud-deck-not-judged(SimpleClouds.prepare_each leaves sigma_xsec unset)')
+                continue
+            try:
+                if op == 'model':
+                    rn, rv, rt, _ = model.model(wngrid=req, cutoff_grid=True)
+                    got = {'model': (np.asarray(rv, float), np.asarray(rt, float))}
+                    ref = {'model': (full, trans_full)}
+                elif op == 'contrib':
+                    rn, res = model.model_contrib(wngrid=req, cutoff_grid=True)
+                    got = {n_: (np.asarray(v_[0], float), np.asarray(v_[1], float)) for n_, v_ in res.items()}
+                    ref = ref_contrib
+                else:
+                    rn, res = model.model_full_contrib(wngrid=req, cutoff_grid=True)
+                    got = _components(res)
+                    ref = ref_full
+            except Exception as e:
+                ctx.violation('restricted-raises:' + op, '%s(wngrid=...) raised %r after a run on %s' % (op, e, prev), case)
+                break
+            rn = np.asarray(rn, float)
+            ctx.bucket('multi-contrib:op:%s:%s:after-%s' % (op, 'native' if wkey is None else wkey, prev))
+            prev = 'native' if wkey is None else wkey
+            if req is None:
+                idx = np.arange(len(nat))
+                if not np.array_equal(rn, nat):
+                    ctx.violation('native-grid-changed', '%s() no longer runs on the native grid' % op, case)
+                    break
+            else:
+                check_clip(ctx, nat, req, rn, case)
+                idx = np.searchsorted(nat, rn)
+                if not np.all(nat[np.minimum(idx, len(nat) - 1)] == rn):
+                    ctx.violation('restricted-grid-not-native-points', 'restricted run returned points that are not native points', case)
+                    break
+                s0, s1 = geo['line']
+                ctx.bucket('multi-contrib:window-%s-the-line' % ('contains' if np.any((idx >= s0) & (idx < s1)) else 'excludes'))
+            for name in sorted(ref):
+                if name not in got:
+                    ctx.violation('contrib-restricted-missing:' + op, 'component %s missing from the run' % name, case)
+                    stop = True
+                    break
+                rv_, rt_ = got[name]
+                fv_, ft_ = ref[name]
+                be = _band_eff(kind, band, ft_, idx)
+                ctx.bucket('multi-contrib:compared:' + ('to-rounding' if be == 0.0 else 'within-licensed-band'))
+                ctx.disagreements_checked += 1
+                d_ = np.abs(rv_ - fv_[idx])
+                if rv_.shape != fv_[idx].shape or np.any(d_ > be + tiny):
+                    which = dict(model='restricted-differs:multi-contrib:' + kind, contrib='contrib-restricted-differs:model_contrib',
+                                 full='contrib-restricted-differs:model_full_contrib')[op]
+                    ctx.violation(which, 'the spectrum of %s at a wavenumber changed with the set of wavenumbers computed in the same '
+                                  'run / with the grid of the run before it (history %s)' % (name, base['history'][:step + 1]), case,
+                                  dict(component=name, maxdiff=float(d_.max()), band=be, tiny=tiny,
+                                       where=float(rn[int(d_.argmax())]), restricted=rv_[:6], full=fv_[idx][:6]))
+                    stop = True
+                    break
+            if stop:
+                break
+            # ---- the restricted run against the Lean model of C01 run on the SAME columns of the cross-sections of the full run
+            # (column_independent_trans / column_within_cutoff are statements about exactly this re-indexing)
+            if op == 'model' and kind == 'transmission' and req is not None:
+                new = bool(spec.get('new_path_method'))
+                d = ctx.model('C01').call('c01.spectrum', C.N(1 if new else 0), C.F(prof['rp']), C.F(prof['rs']), C.L(prof['z']),
+                                          C.L(prof['dz']), C.L(prof['zb']), C.L(prof['density']), C.N(len(idx)),
+                                          C.L(sig_full, lambda ks: C.N(ks[0]) + ' ' + C.LL(ks[1][:, idx].tolist())))
+                nl = prof['nlayers']
+                d.list(lambda: d.list())
+                d.list(lambda: d.list())
+                dcut = np.array(d.list())
+                dfull = np.array(d.list())
+                ctx.check_close('model(wngrid).depth vs Transmission.modelDepth (early exit) on the re-indexed columns of the full run',
+                                got['model'][0], dcut, case, rel=1e-9, abs_=band)
+                ctx.disagreements_checked += 1
+                if not np.all((got['model'][0] <= dfull * (1 + 1e-9)) & (got['model'][0] >= dfull * (1 - 1e-9) - band)):
+                    ctx.mismatch('model(wngrid).depth vs uncut Transmission.modelDepth on the re-indexed columns within the band', case,
+                                 dict(impl=got['model'][0], model_full=dfull, band=band))
+        # the native run afterwards reproduces the first one
+        if not stop:
+            nat2, full2, _, _ = model.model()
+            ctx.disagreements_checked += 1
+            if not (np.array_equal(nat2, nat) and C.close(list(full2), list(full), rel=1e-12)):
+                ctx.violation('full-run-not-reproducible', 'the native run changed after restricted runs on the same model', base)
+
+
 def run_opacity(ctx):
     """Opacity.opacity(T,P,wngrid): own native points unchanged; other points between neighbouring native values"""
     from harness.c04 import make_opacity
@@ -577,13 +843,19 @@ def run(ctx):
         run_opacity(ctx)
         run_witness(ctx)
         run_models(ctx)
+        run_contrib_models(ctx)
     finally:
         fm.reset_caches()
 
 
 def replay(ctx, case):
     fm.quiet()
+    if isinstance(case.get('case'), dict) and 'stream' in case['case']:
+        case = case['case']                 # a replays/*.json payload
     if 'native' in case and 'spectrum' in case and 'obs' in case:
         run_binned_case(ctx, case)          # stored binning case (corpus/C13): clip + FluxBinner on the real code
+        return
+    if case.get('stream') == 'multi-contrib':
+        eval_contrib_case(ctx, int(case['k']), int(case['sub']))     # regenerated from its own sub-stream seed
         return
     ctx.notes.append('replay of C13 cases re-runs the generator stream with the recorded seed/k: ' + str(case.get('k')))
